@@ -139,7 +139,7 @@ impl XCompoundSpec {
         }
         let mut ret = binding.clone();
         for (arg, param) in args.iter().zip(self.fields.iter()) {
-            let t = param.type_.resolve_bind(&ret, Some(tail));
+            let t = param.type_.resolve_bind(binding, Some(tail));
             ret = ret.mix(&t.bind_in_assignment(arg)?)?;
         }
         Some(ret)
